@@ -1166,6 +1166,14 @@ func (cfg *Config) glob(base, pat string) ([]string, error) {
 		if err != nil {
 			return nil, err
 		}
+		if !cfg.DotGlob && !explicitLeadingDot(part, cfg.ExtGlob) {
+			// Without dotglob, a leading dot in a file name must be matched
+			// explicitly by the pattern, and not by "*", "?" or "[...]".
+			patMatcher := matcher
+			matcher = func(name string) bool {
+				return !strings.HasPrefix(name, ".") && patMatcher(name)
+			}
+		}
 		var newMatches []string
 		for _, dir := range matches {
 			newMatches, err = cfg.globDir(base, dir, matcher, wantDir, newMatches)
@@ -1201,6 +1209,17 @@ func unquoteMeta(pat string) string {
 		sb.WriteByte(pat[i])
 	}
 	return sb.String()
+}
+
+// explicitLeadingDot reports whether the pattern for a path element may match
+// a leading dot in a file name: it has to begin with a literal dot.
+// Patterns beginning with an extended pattern matching operator are left
+// to the pattern matcher, as any of their alternatives may begin with a dot.
+func explicitLeadingDot(pat string, extGlob bool) bool {
+	if strings.HasPrefix(pat, ".") || strings.HasPrefix(pat, `\.`) {
+		return true
+	}
+	return extGlob && len(pat) > 1 && pat[1] == '(' && strings.IndexByte("?*+@!", pat[0]) >= 0
 }
 
 func (cfg *Config) globDir(base, dir string, matcher func(string) bool, wantDir bool, matches []string) ([]string, error) {
